@@ -346,6 +346,45 @@ pub fn run(tier: Tier) -> i32 {
         }
         rep.cov("batch_boundary_cuts", json!(cuts.len()));
     }
+    // (c2) a stream with payloads larger than 8 KiB (legal up to 10 000 bytes): cuts around and inside them
+    {
+        let sizes = [48usize, 9008, 160, 10_000, 32];
+        let pk: Vec<fp_model::stream::Packet> = sizes.iter().enumerate().map(|(i, sz)| {
+            let mut p = crate::gen::recognisable_framed((i % 2) as u8, crate::gen::fee_of_link((i % 2) as u8), *sz, 6100 + i as u64);
+            p.rdh.stop_bit &= 1;
+            p
+        }).collect();
+        let bytes = stream::to_bytes(&pk);
+        let (walked, _) = stream::walk(&bytes);
+        let mut cuts: Vec<usize> = Vec::new();
+        for w in &walked {
+            let s0 = w.offset as usize;
+            let e0 = w.payload.1;
+            for c in [s0, s0 + 1, s0 + 63, s0 + 64, s0 + 65, s0 + 64 + 8191, s0 + 64 + 8192, s0 + 64 + 8193, e0 - 1, e0] {
+                if c <= e0 && c <= bytes.len() {
+                    cuts.push(c);
+                }
+            }
+        }
+        cuts.sort();
+        cuts.dedup();
+        for args in [vec!["check", "sanity"], vec!["view", "rdh", "-d"], vec!["check", "all", "its"]] {
+            let full = cli_full(&bytes, &args);
+            for stdin in [false, true] {
+                let res = par_map(&cuts, |_, c| cli_case(&full, &bytes, *c, &args, stdin));
+                for (c, r) in cuts.iter().zip(res.iter()) {
+                    evaluations += 1;
+                    if let Some((sig, d)) = r {
+                        rep.violation(Violation {
+                            signature: format!("{sig}:large-payload"),
+                            description: format!("{d} [stream with 9008- and 10000-byte payloads cut at byte {c} of {}, `{}` {}]", bytes.len(), args.join(" "), if stdin { "stdin" } else { "file" }),
+                            replay: json!({"kind": "cli", "args": args, "stdin": stdin, "cut": c, "full_hex": hex(&bytes)}),
+                        });
+                    }
+                }
+            }
+        }
+    }
     // (d) truncation together with a custom-checks file whose packet-count expectation then fails (a statistics error
     //     exists although few or no RDHs were read): cuts in and around the first RDH and the first packet
     {
